@@ -114,6 +114,8 @@ type Interp struct {
 	ghost      map[string]value
 	callDepth  int
 	pathDone   chan pathResult
+	loopSpecs  map[string]*loopSpec
+	loopPost   map[string]value
 	regexps    map[*value]string
 	fnInfos    map[*ssa.Function]*fnInfo
 	fnInfoMu   sync.Mutex
@@ -175,6 +177,9 @@ func (in *Interp) decide(kind string, gen func() []int64) int64 {
 		}
 		return d.alts[d.idx]
 	}
+	if len(in.trail) > 4000 {
+		panic(abortHarness{"more than 4000 decisions on one path (unwinding failure)"})
+	}
 	alts := gen()
 	if len(alts) == 0 {
 		panic(pathEnd{"no feasible alternative at " + kind})
@@ -234,7 +239,7 @@ func (in *Interp) branch(cond *Term, kind string) bool {
 	v := in.decide("br:"+kind, func() []int64 {
 		var alts []int64
 		known := -1
-		if in.model != nil && in.tt.evaluable(cond, map[int]bool{}) {
+		if in.model != nil && in.tt.evaluable(cond, map[int]bool{}, in.model) {
 			known = int(in.tt.Eval(cond, in.model, map[int]uint64{}))
 		}
 		tryT, tryF := true, true
@@ -365,7 +370,7 @@ func (fr *frame) runDefer(d *deferred) {
 		if !ok {
 			r := recover()
 			switch r.(type) {
-			case pathEnd, abortHarness, killThread:
+			case pathEnd, abortHarness, killThread, loopBackEdge:
 				panic(r)
 			}
 			fr.panicking = true
@@ -531,7 +536,7 @@ func (in *Interp) runFrame(fr *frame) {
 		}
 		r := recover()
 		switch r.(type) {
-		case pathEnd, abortHarness, killThread:
+		case pathEnd, abortHarness, killThread, loopBackEdge:
 			panic(r)
 		case targetPanic, runtimePanic:
 		default:
@@ -548,6 +553,9 @@ func (in *Interp) runFrame(fr *frame) {
 	}()
 	for {
 		nonPhis := in.executePhis(fr)
+		if len(in.loopSpecs) > 0 {
+			in.loopHook(fr)
+		}
 		for _, instr := range nonPhis {
 			in.steps++
 			if in.steps > in.maxSteps {
@@ -655,7 +663,7 @@ func (in *Interp) storePtr(T types.Type, p value, v value) {
 		if p == nil {
 			panic(runtimePanic{"invalid memory address or nil pointer dereference"})
 		}
-		*p = copyVal(v)
+		assign(p, v)
 		return
 	case symElemPtr:
 		if vt, ok := v.(*Term); ok {
@@ -665,10 +673,32 @@ func (in *Interp) storePtr(T types.Type, p value, v value) {
 			return
 		}
 		j := in.concretize(p.idx, "elemptr-store", 64)
-		p.base[j] = copyVal(v)
+		assign(&p.base[j], v)
 		return
 	}
 	panic(fmt.Sprintf("store through %T", p))
+}
+
+// assign stores v into the cell, updating structs and arrays in place so that
+// previously taken field/element addresses stay valid (Go memory semantics).
+func assign(dst *value, v value) {
+	switch nv := v.(type) {
+	case structure:
+		if old, ok := (*dst).(structure); ok && len(old) == len(nv) {
+			for i := range nv {
+				assign(&old[i], nv[i])
+			}
+			return
+		}
+	case array:
+		if old, ok := (*dst).(array); ok && len(old) == len(nv) {
+			for i := range nv {
+				assign(&old[i], nv[i])
+			}
+			return
+		}
+	}
+	*dst = copyVal(v)
 }
 
 func (in *Interp) concPtr(p value) *value {
